@@ -1,7 +1,7 @@
 """Property -> rules registry (DESIGN.md sections 0, 4, 5)."""
 import copy
 
-from rules import x_emit, g_thread, g_cover, g_alt, g_struct, g_lex, k_keywords, t_tree, x_pp, x_calls, w_api, s_state, p_panic
+from rules import x_emit, x_macro, g_thread, g_cover, g_alt, g_struct, g_lex, k_keywords, t_tree, x_pp, x_calls, w_api, s_state, p_panic
 
 TRUSTED_BASE = [
     'rustc front end / MIR construction (nightly 1.97) and syn 2 as parsers of the Rust sources',
@@ -14,7 +14,7 @@ _cache = {}
 
 MODULES = {
     'g_thread': g_thread.run, 'g_cover': g_cover.run, 'g_alt': g_alt.run, 'g_struct': g_struct.run,
-    'x_emit': x_emit.run, 'g_lex': g_lex.run, 's_state': s_state.run, 'p_panic': p_panic.run,
+    'x_emit': x_emit.run, 'x_macro': x_macro.run, 'g_lex': g_lex.run, 's_state': s_state.run, 'p_panic': p_panic.run,
     'k_keywords': k_keywords.run, 't_tree': t_tree.run, 'x_pp': x_pp.run, 'x_calls': x_calls.run, 'w_api': w_api.run,
 }
 # rule id -> module that computes it
@@ -27,10 +27,10 @@ RULE_HOME = {
     'T1': 't_tree', 'T2': 't_tree', 'T3': 't_tree', 'G4c': 't_tree',
     'X1': 'x_pp', 'X2': 'x_pp', 'X3': 'x_pp', 'X5': 'x_pp', 'X6': 'x_pp', 'X7': 'x_pp',
     'X8': 'x_calls', 'X9': 'x_calls', 'X10': 'x_calls', 'X11': 'x_calls', 'X12': 'x_calls', 'P2': 'x_calls',
-    'W1': 'w_api', 'W2': 'w_api', 'W3': 'w_api', 'W4': 'w_api', 'W5': 'w_api',
+    'W1': 'w_api', 'W2': 'w_api', 'W3': 'w_api', 'W4': 'w_api', 'W5': 'w_api', 'W6': 'w_api',
     'G2': 'g_lex', 'G4': 'g_lex',
     'S1': 's_state', 'S2': 's_state', 'S3': 's_state', 'S4': 's_state', 'S5': 's_state', 'S6': 's_state', 'S7': 's_state',
-    'P1': 'p_panic', 'X4': 'x_emit',
+    'P1': 'p_panic', 'X4': 'x_emit', 'X13': 'x_macro', 'X14': 'x_macro',
 }
 
 
@@ -217,13 +217,14 @@ PROPS = {
         'needs_exp': True,
     },
     'C20': {
-        'rules': [rule('W1'), rule('W2'), rule('X9')],
+        'rules': [rule('W1'), rule('W2'), rule('X9'), rule('W6')],
         'explanation': 'Each facade function is a fixed composition of the next layer: parse_X / parse_X_str are exactly `let (text, '
                        'defines) = preprocess[_str](..)?; parse_X_pp(text, defines, allow_incomplete)` and the sv and lib families are '
                        'identical up to the entry called (W1); every parameter is forwarded to the parameter of the same name, '
                        'strip_comments=false and depth 0 are the only constants (X9); preprocess = read the file, then '
-                       'preprocess_str with the same arguments (X9 on the internal calls); the mode is chosen identically (W2).',
-        'decided': 'W1 W2 X9 (as a whole: under these premises the stated equalities are immediate)',
+                       'preprocess_str with the same arguments (X9 on the internal calls) and with exactly the buffer that was read, not re-bound or '
+                       'modified in between (W6); the mode is chosen identically (W2).',
+        'decided': 'W1 W2 X9 W6 (as a whole: under these premises the stated equalities are immediate)',
         'not_decided': '',
         'assumptions': ['reading a file yields the string the caller would pass'],
         'level_text': 'Wrapper-equivalence by structural identity and argument threading, checked for every call site.',
@@ -358,13 +359,45 @@ PROPS = {
         'level_note': 'partial',
         'technique': 'named-parameter threading lint + per-handler emission classes under the flag',
     },
+    'C05': {
+        'rules': [rule('X13'), rule('X9'), rule('X10'), rule('X4', drop=['strip-', 'double-emission'])],
+        'explanation': 'NARROW claim: only the structural clauses of macro expansion are decided; the value-level rewriting of the body is not. '
+                       'Misuse is reported by name: DefineNotFound carries the name that was used, DefineArgNotFound the formal that got '
+                       'no value, DefineNoArgs the macro name and is raised exactly when the macro has formals and the usage has no '
+                       'argument list; formals are walked in order and bound to the actual of the same index, falling back to the '
+                       'default in both omitted-argument cases; a macro without body expands to nothing; the name is looked up in the '
+                       'table passed in (X13). The expansion is preprocessed again with the live define table and the table it returns '
+                       'is adopted (X9, X10): nested usages see the table current at the point of use. The usage node has a handler '
+                       'that replaces it and keeps the blanks after it once (X4b).',
+        'decided': 'X13 X9 X10 X4b — error payloads, positional binding with defaults, body-less macros, live-table threading, usage replaced once',
+        'not_decided': 'the substituted text itself: split_text (a character state machine), the `` / `" / `\\`" / line-continuation rewrites, '
+                       'that ordinary string literals are left untouched, token pasting — values of a string-rewriting chain over all '
+                       'define/usage programs, for which no sound static abstraction is in reach',
+        'assumptions': [],
+        'level_text': 'Structural audit of the macro resolver (error discipline, binding loop shape, table threading). It decides necessary '
+                      'conditions of 22.5.1 expansion, not the expanded text.',
+        'level_note': 'narrow: most behavioural breakages of expansion (wrong text) are outside what this check can see',
+        'technique': 'error-payload and binding-shape lint on the macro resolver + named-parameter threading',
+    },
+    'C11': {
+        'rules': [rule('X14'), rule('X7'), rule('X10'), rule('X9')],
+        'explanation': 'NARROW claim: the structural clauses of "the returned define table is exact". The table is seeded with the '
+                       'predefined constants and then every caller-supplied entry unchanged; inside the loop it is written only by '
+                       '`define (insert under the macro\'s own name of a Define built from that directive\'s name, formals and text), '
+                       '`undef (remove exactly the name given), `undefineall (clear) and by adopting the table returned from an include '
+                       'or an expansion; the function returns that table (X14). None of these writes can happen in a skipped region '
+                       '(X7). The table handed to nested runs is the live one and what comes back replaces it (X9, X10).',
+        'decided': 'X14 X7 X10 X9 — who writes the table, with which key/value, and that it is returned',
+        'not_decided': 'equality of outputs/tables between a two-file run and a run over the concatenation (a relation between two '
+                       'executions); that formal/default/body texts equal the source text (string slicing values)',
+        'assumptions': [],
+        'level_text': 'Who-may-write analysis of the define table with key/value provenance per writer.',
+        'level_note': 'narrow: the relational clause of the property is not decided',
+        'technique': 'who-may-write / provenance lint on the define table',
+    },
 }
 
 NOT_APPLICABLE = {
-    'C05': 'value-level string rewriting (split_text state machine, replace chain) over all define/usage programs: no '
-           'sound static abstraction in reach; its structural clauses are decided under C10/C03/C06',
-    'C11': 'equality of define tables/outputs between two executions (two-file run vs concatenation) is a relation over '
-           'run-time values; its structural clause (table written only by non-skipped events) is decided under C04 (X7)',
 }
 
 
